@@ -6,7 +6,8 @@
    * A Rust `Comparison {term, guards}` is the pair [(term, guards)] (type [comparison]).
    * Every reachable panic is an explicit [None]:
        - `guards[0]` on an empty guard list (equality_comparison, transitive_equality);
-       - `ivar.name.chars().next().unwrap()` on an empty variable name (replacement_helper);
+       - (before fix F18: `ivar.name.chars().next().unwrap()` on an empty variable name in
+         replacement_helper; the repaired code falls back to the variant "I" and cannot panic there);
        - the two `panic!`s of GeneralTerm::substitute (through Model/Subst.substitute);
        - `varnames[0]` and `panic!("You are using the replacement helper function wrong")`
          (both unreachable, kept for faithfulness).
@@ -140,6 +141,23 @@ Definition first_char (s : string) : option string :=
   | String c _ => Some (String c EmptyString)
   end.
 
+(* `name.trim_start_matches('_')` *)
+Fixpoint trim_start_underscores (s : string) : string :=
+  match s with
+  | String "_"%char rest => trim_start_underscores rest
+  | x => x
+  end.
+
+(* fix F18: `ivar.name.trim_start_matches('_').chars().next().map_or("I".to_string(), |c| c.to_string())`
+   (before the repair: `ivar.name.chars().next().unwrap().to_string()`, which made the variant "_" for a
+   variable named `_X` — the fresh variable `_$i` is refused by anthem's parser — and panicked on the
+   empty name). *)
+Definition fresh_variant (name : string) : string :=
+  match first_char (trim_start_underscores name) with
+  | Some v => v
+  | None => "I"
+  end.
+
 (* returns (simplified_formula, replace); None = panic *)
 Definition replacement_helper (ivar ovar : var) (comp : comparison) (F : formula) : option (formula * bool) :=
   let ivar_term := GInt (IVar (vname ivar)) in
@@ -147,21 +165,18 @@ Definition replacement_helper (ivar ovar : var) (comp : comparison) (F : formula
   let candidate2 : comparison := (ivar_term, [mkguard REq (GVar (vname ovar))]) in
   let replace := if cmp_eqb comp candidate1 then true else cmp_eqb comp candidate2 in
   if replace then
-    match first_char (vname ivar) with
-    | None => None
-    | Some variant =>
-        match choose_fresh_variable_names (variables F) variant 1 with
-        | [] => None
-        | fvar :: _ =>
-            match F with
-            | FQ q vars f =>
-                let vars' := filter (fun x => negb (var_eqb x ovar)) vars ++ [mkvar fvar SInteger] in
-                match substitute f ovar (GInt (IVar fvar)) with
-                | Some f' => Some (FQ q vars' f', true)
-                | None => None
-                end
-            | _ => None
+    let variant := fresh_variant (vname ivar) in
+    match choose_fresh_variable_names (variables F) variant 1 with
+    | [] => None
+    | fvar :: _ =>
+        match F with
+        | FQ q vars f =>
+            let vars' := filter (fun x => negb (var_eqb x ovar)) vars ++ [mkvar fvar SInteger] in
+            match substitute f ovar (GInt (IVar fvar)) with
+            | Some f' => Some (FQ q vars' f', true)
+            | None => None
             end
+        | _ => None
         end
     end
   else Some (F, false).
